@@ -181,6 +181,14 @@ def gen_function(contract, contracts, known=()):
                                        {"result": result})
                 path.oblige(f"ensures.{name}", g, {"kind": "ensures", "clause": nat or text, "clause_name": name,
                                                    "symbolic_clause": text, "known": hits}, extra_hyps=kh)
+            for lname, (lvars, ltext) in (contract.lemmas or {}).items():
+                # universally quantified lemma over fresh reals, proved without any hypothesis of the path
+                ext = {v: Sym(z3.Real(f"lemma_{lname}__{v}")) for v in lvars.split()}
+                g = contract.eval_clause(interp, ltext, bound, ext)
+                gt = V._bool_term(g) if is_sym(g) else z3.BoolVal(bool(g))
+                path.obligations.append(X.Obligation(f"lemma.{lname}", [], gt,
+                                                     {"kind": "ensures", "clause": "True", "clause_name": f"lemma.{lname}",
+                                                      "lemma": ltext}, []))
             path.oblige("canary", False, {"kind": "canary"})
             return result
 
@@ -250,6 +258,12 @@ def emit_structured(interp, contract, path, name, spec, bound, result, known=(),
         kh, hits = _known_hyps(interp, contract, known, f"{contract.key}/ensures.{name}{case_tag}", bound, extra)
         for h in kh:
             path.conds.append(h)
+        for u in spec.get("use", []):
+            # instances of lemmas that are proved universally (obligation `lemma.<name>` of the same contract)
+            lname = u.replace("all(", "", 1).split("(", 1)[0].strip()
+            if lname not in (contract.lemmas or {}):
+                raise CheckerFault(f"{contract.key}: `use` of {lname!r}, which is not a declared lemma")
+            path.assume(contract.eval_clause(interp, u, bound, extra))
         for i, st in enumerate(spec.get("steps", [])):
             hint = None
             if isinstance(st, (tuple, list)):
